@@ -676,10 +676,22 @@ def check_truth_conversion(ctx):
         if isinstance(n, (ast.Tuple, ast.List)) and n.elts and all(isinstance(x, ast.Constant) and isinstance(x.value, str) and x.value.startswith('__') for x in n.elts):
             order = [x.value for x in n.elts]
     rets = [r for r in ast.walk(fi.node) if isinstance(r, ast.Return) and r.value is not None]
-    good_ret = all(isinstance(r.value, ast.Call) and isinstance(r.value.func, ast.Call) and call_name(r.value.func) == 'getattr'
-                   and canon(r.value.func.args[0]) == P for r in rets) and rets
+    single = {}
+    for n in ast.walk(fi.node):
+        if isinstance(n, ast.Assign) and len(n.targets) == 1 and isinstance(n.targets[0], ast.Name):
+            single.setdefault(n.targets[0].id, []).append(n.value)
+
+    def looked_up(f):
+        # getattr(P, m) / getattr(P, m, <default>) directly, or through a local bound once to it
+        if isinstance(f, ast.Name) and len(single.get(f.id, [])) == 1:
+            f = single[f.id][0]
+        return isinstance(f, ast.Call) and call_name(f) == 'getattr' and len(f.args) in (2, 3) and canon(f.args[0]) == P
+    good_ret = all(isinstance(r.value, ast.Call) and not r.value.args and not r.value.keywords and looked_up(r.value.func) for r in rets) and rets
+    compares = [r for r in rets if any(isinstance(x, (ast.Compare, ast.BoolOp)) and any(isinstance(y, ast.Name) and y.id == P for y in ast.walk(x)) for x in ast.walk(r.value))]
     if order == ['__nonzero__', '__len__'] and good_ret:
         ctx.holds(rule, fi, 'field condition -> first of (__nonzero__, __len__) the field has, called', 'truth of the value (None / empty are false), integers by value', fi.node.lineno, clause='g')
+    elif not compares and order is None and rets:
+        ctx.undecided(rule, fi, 'field condition -> %s' % ('; '.join(stmt_text(r) for r in rets)[:160]), 'cannot see in which order the truth operators of the field are tried', fi.node.lineno, clause='g')
     else:
         ctx.violation(rule, fi, 'field condition -> %s' % ('; '.join(stmt_text(r) for r in rets)[:160] or 'no return'),
                       'a field used as a condition must become its deferred truth value (__nonzero__, else __len__): a comparison such as field != 0 is true for None, b\'\' and []', fi.node.lineno, clause='g')
